@@ -106,6 +106,7 @@ CHECKS = {
         'legs': [
             {'engine': 'faultcall', 'config': 'asan', 'variant': 'base', 'runs': [10000, 600000]},
             {'engine': 'faultcall', 'config': 'asan32', 'variant': 'base', 'runs': [5000, 300000]},
+            {'engine': 'faultcall', 'config': 'asanfast', 'variant': 'base', 'runs': [4000, 200000]},   # SAFE_FAST: the fast editions
             {'engine': 'streamsim', 'config': 'asan', 'runs': [100000, 3000000]},
             {'engine': 'streamsim', 'config': 'asan32', 'runs': [50000, 1500000]},
             {'engine': 'mtsim', 'config': 'asan', 'variant': 'exit', 'runs': [20000, 1000000]},
